@@ -50,6 +50,7 @@ def _argtext(call):
 
 
 def run(repo, rep, tier):
+    namespace_validated_first(repo, rep, 'C12.R10', lambda n: 'Class' in n or 'Qualifier' in n)
     r1 = rep.rule('C12.R1', 'CIM names are compared case-insensitively')
     r2 = rep.rule('C12.R2', 'no uncalled string method in a comparison')
     r3 = rep.rule('C12.R3', 'subtree queries share one closure')
@@ -743,3 +744,50 @@ def resolve_gets_deep_copy(repo, rep):
     if r9.sites < 3:
         raise AnalysisError('C12.R9: only %d calls of _resolve_class'
                             % r9.sites)
+
+
+def namespace_validated_first(repo, rep, rid, select):
+    """Every operation of the mock server's main provider that takes a
+    namespace validates it (`self.validate_namespace(namespace)`) before it
+    touches the repository - as the first call, or directly after the pull
+    switch.  An operation that skips it answers for a namespace that does
+    not exist (empty result / KeyError) instead of
+    CIM_ERR_INVALID_NAMESPACE, unlike all its siblings."""
+    r = rep.rule(rid, 'operations validate the namespace before using the '
+                 'repository')
+    mp = repo.cls(MAIN, 'MainProvider')
+    n = 0
+    for name, f in sorted(mp.methods.items()):
+        if not name[0].isupper() or 'namespace' not in f.params or \
+                not select(name):
+            continue
+        calls = [c for st in f.body for c in ast.walk(st)
+                 if isinstance(c, ast.Call) and
+                 (dotted(c.func) or '').startswith('self.')]
+        uses_repo = any('cimrepository' in (dotted(c.func) or '') or
+                        (dotted(c.func) or '').startswith('self._get') or
+                        (dotted(c.func) or '') == 'self.get_class' or
+                        (dotted(c.func) or '')[5:6].isupper()
+                        for c in calls)
+        if not uses_repo:
+            continue
+        n += 1
+        r.sites += 1
+        r.functions.add(f.fq)
+        names = [dotted(c.func) for c in calls]
+        idx = names.index('self.validate_namespace') \
+            if 'self.validate_namespace' in names else None
+        ok = idx is not None and all(
+            x == 'self._validate_pull_operations_enabled'
+            for x in names[:idx])
+        r.ob(ok, name, {'first_calls': names[:3]})
+        if not ok:
+            rep.finding(r, f.qualname, 'validate_namespace', 'not-validated',
+                        MAIN, f.node.lineno,
+                        '%s uses the repository (first calls: %s) without '
+                        'validating the namespace first: for a namespace '
+                        'that does not exist it does not raise '
+                        'CIM_ERR_INVALID_NAMESPACE like its siblings'
+                        % (name, names[:3]))
+    if n < 2:
+        raise AnalysisError('%s: only %d operations selected' % (rid, n))
